@@ -102,6 +102,40 @@ for _ua in (None, 9):
                replay=replay_scn(None, 5, bob_from=3, alice_from=8, cursor_gap=True, actions=[('alice', _ua), ('bob', None), ('alice', None)]))(_ob_cursor_gap(_ua))
 
 
+def _ob_until_below_cursor(until_a, farms):
+    def s(I):
+        # alice has claimed up to epoch 5; she now states an until_epoch BELOW that cursor (no farm has started by then): refused, nothing is re-paid later
+        sc = Scn(I, alice_second=None, bob_from=3, last_a=5, farms=farms)
+        b = sc.b
+        for fx in sc.farms:
+            I.assume(smt.Eq(fx['claimed0'], 0))
+        pre = b.snapshot()
+        st0, _ = sc.claim('alice', until_a)
+        st1, _ = sc.claim('alice', None)
+        st_b, _ = sc.claim('bob', None)
+        I.observe('status', 'ok' if st_b == 'ok' else 'err')
+        observe_claim_state(I, sc)
+        I.cover('done', HINT)
+        I.check('until_epoch_below_the_cursor_refused', st0 != 'ok')
+        I.check('later_claims_succeed', st1 == 'ok' and st_b == 'ok')
+        paid_a = simp(b.get('alice', 'uusd') - pre.get('alice', 'uusd'))
+        paid_b = simp(b.get('bob', 'uusd') - pre.get('bob', 'uusd'))
+        exp_a, _ = sc.expected('alice', E)
+        exp_b, _ = sc.expected('bob', E)
+        I.check('no_epoch_paid_twice', smt.Eq(paid_a, exp_a))
+        I.check('other_user_paid_exactly_their_epoch_shares', smt.Eq(paid_b, exp_b))
+    return s
+
+
+for _ua, _farms in ((3, ((4, 12),)), (2, ((4, 12), (6, 9)))):
+    obligation('C06', 'B1.until_below_cursor_before_farm_start_until%d_%dfarms' % (_ua, len(_farms)),
+               entries=['execute', 'claim', 'calculate_rewards', 'compute_start_from_epoch_for_address'], kind='B',
+               statement='a claim whose until_epoch lies below the user\'s claim cursor (and before any farm on the LP token has started) is refused; the following claims pay every '
+                         'epoch once: the user from the cursor on, the other user in full',
+               bounds='current epoch 10, farms %s, A: cursor 5, B from epoch 3; A states until_epoch %d; weights / rates symbolic' % (_farms, _ua), covers=['done'],
+               replay=replay_scn(None, 5, farms=_farms, bob_from=3, actions=[('alice', _ua), ('alice', None), ('bob', None)]))(_ob_until_below_cursor(_ua, _farms))
+
+
 def _ob_emergency_then_claims(I):
     """carol emergency-withdraws a CLOSED (still locked) position at epoch 10; in epoch 11 alice and bob claim"""
     sc = Scn(I, alice_second=None, bob_from=6)
